@@ -191,6 +191,14 @@ def gen_cases(tier: str, seed: int) -> List[Dict]:
         add("subst-poly", poly=p, args=[sub], kwargs={}, mode="direct")
         sub2 = poly("b", ("q2",), (2,), 2, 2)
         add("subst-newvar", poly=p, args=[None, sub2], kwargs={}, mode="direct")
+    # numeric and polynomial arguments mixed in one call (simultaneous substitution): the polynomial argument may mention
+    # an indeterminate that is itself given a number
+    for psh in [(), (2,)]:
+        p = poly("a", ("q0", "q1"), psh, 3, 3)
+        q1poly = {"kind": "poly", "names": ["q0", "q1"], "exps": [[0, 1]], "shape": [], "slots": [[1]], "mode": "raw"}
+        add("mixed-subst", poly=p, args=[], kwargs={"q0": q1poly, "q1": num("y", ())}, mode="direct")
+        add("mixed-subst", poly=p, args=[poly("b", ("q0", "q1"), (), 2, 2), num("y", rng.choice([(), (2,)]))], kwargs={}, mode="direct")
+        add("mixed-subst", poly=p, args=[num("x", ())], kwargs={"q1": poly("b", ("q0",), (), 2, 2)}, mode="direct")
     # staged evaluation vs at once
     for psh in [(), (2,), (1, 2)]:
         p = poly("a", ("q0", "q1"), psh, 3, 3)
